@@ -123,7 +123,7 @@ class MembershipMonitor:
         ctx.evaluated()
         if Y.shape != X.shape:
             ctx.violation("Constant: result shape differs from the shape of x", {"value": term.value, "x_shape": X.shape}, X.shape, Y.shape)
-        elif X.dtype.kind == "f" and not all(feq(float(v), float(term.value)) for v in Y.ravel()[:64]):
+        elif X.dtype.kind in "fiub" and not all(feq(float(v), float(term.value)) for v in Y.ravel()[:64]):
             ctx.violation("Constant: membership is not the constant", {"value": term.value}, term.value, Y.ravel()[:8])
 
     def check_monotonic(self):
@@ -221,6 +221,20 @@ def run(ctx):
                 term.membership(arr[:6].astype(np.float32))
                 term.membership(arr[:1])  # a batch of one
                 ctx.hit("forms:list,int,float32,batch-of-one")
+                # other memory layouts and element types of the same x values
+                k = (len(xs) // 4) * 4
+                M = arr[:k].reshape(4, -1)
+                ro = np.array(arr[:5])
+                ro.flags.writeable = False
+                fin = [v for v in xs if math.isfinite(v)]
+                for what, A in {
+                    "transposed": M.T, "fortran order": np.asfortranarray(M), "strided": arr[::3], "reversed": arr[::-1], "row": arr[None, :],
+                    "read-only row broadcast over a batch": np.broadcast_to(ro, (3, 5)), "1x1": arr[:1].reshape(1, 1),
+                    "integer array": np.array([int(round(v)) for v in fin[:8]]), "list of ints": [int(round(v)) for v in fin[:4]],
+                    "numpy integer": np.int64(int(round(lo))), "tuple": tuple(fin[:3]),
+                }.items():  # fmt: skip
+                    term.membership(A)
+                    ctx.hit("x form:" + what)
             if i < len(kinds) and i % 5 == 0:
                 ctx.sample("term", {"spec": spec, "x": xs[:8], "membership": term.membership(np.array(xs[:8]))})
         # the same term and the same array object used again after the array was refilled / a parameter was changed (stale state)
@@ -248,11 +262,12 @@ def run(ctx):
         # Constant as the degenerate case
         for i, rnd in ctx.cases("constant", ctx.scale(20, 400)):
             c = fl.Constant("k", rnd.choice([0.0, 1.5, -3.25, rnd.uniform(-10, 10), math.inf]))
-            for x in (0.5, np.array(0.5), np.array([0.1, math.nan, math.inf]), np.zeros((2, 3))):
+            for x in (0.5, np.array(0.5), np.array([0.1, math.nan, math.inf]), np.zeros((2, 3)), 1, np.array([0, 1, 2]), [1, 2], np.array([True, False]), np.float32(0.5)):
                 c.membership(x)
         mon.check_monotonic()
         probe.report(ctx)
         reach.report(ctx)
+    ctx.require("x form:transposed", "x form:integer array", "x form:read-only row broadcast over a batch")
     for k in kinds:
         ctx.require(f"hook:{k}.membership", f"piece:{k}:nan-x", f"piece:{k}:infinite-x")
     if ctx.nshards == 1:
